@@ -17,7 +17,9 @@ import (
 )
 
 func runHistories(c *fw.Ctx, ord int64) (cases int64) {
-	alpha := Alphabet()
+	// the modifier alphabet of scope c plus second instances of the list-valued modifiers, so that A and B can be
+	// built with *different* requested-option lists / option-82 values (state shared between packets only shows then)
+	alpha := append(Alphabet(), ref.Mod{Kind: ref.MRequestedOptions, Codes: []uint8{66, 67}}, ref.Mod{Kind: ref.MGeneric, Code: 82, Val: []byte{2, 3, 'r', 'i', 'd'}})
 	ins := precedenceInputs()
 	lists := numLists(len(alpha), 1) // the empty list and every single modifier
 	bases := make([]*ref.Packet, len(ins))
@@ -94,35 +96,6 @@ func runHistories(c *fw.Ctx, ord int64) (cases int64) {
 				return
 			}
 		}
-		// --- d3: the caller overwrites packet A in place (every option value), then builds B
-		{
-			inA, hwA, ipA, _ = ka.libArgs()
-			inB, hwB, ipB, _ = kb.libArgs()
-			var B3 *dhcpv4.DHCPv4
-			if pv, _ := fw.Safe(func() {
-				A3, _ := call(ka.b, inA, hwA, ipA, lm(ms1))
-				if A3 == nil {
-					return
-				}
-				for _, v := range A3.Options {
-					for j := range v {
-						v[j] ^= 0xff
-					}
-				}
-				// (address fields are left alone: a freshly built packet may legitimately point at net.IPv4zero)
-				B3, _ = call(kb.b, inB, hwB, ipB, lm(ms2))
-			}); pv == nil && B3 != nil {
-				if rb, why := toRef(B3); why == "" {
-					want := ref.Fold(bases[jb.b], ms2)
-					if f, d := ref.Diff(rb, want, kb.b.XidFixed() || ref.FixesXid(ms2)); f != "" {
-						c.Report(fw.Violation{Fingerprint: kb.b.String() + "|result-depends-on-edits-to-an-earlier-result|" + f, Order: ord + i, Scope: "d3:earlier-result-overwritten-then-build", Input: desc() + " (A overwritten in place before B is built)",
-							Observed: d + "   B: " + rb.Describe(), Expected: "B = fold(modifiers, builder(in)) = " + want.Describe(),
-							Explain: "a built packet shares memory with the builders' defaults or with the input: overwriting it changed what the next build returns"})
-						return
-					}
-				}
-			}
-		}
 		// --- d2: the caller's own slice, with spare capacity, handed to two builders in a row
 		if len(ms1) == 0 {
 			return
@@ -164,16 +137,15 @@ func runHistories(c *fw.Ctx, ord int64) (cases int64) {
 					c.Report(fw.Violation{Fingerprint: x.k.b.String() + "(in, mods...)|fold-with-reused-slice:" + f, Order: ord + i, Scope: scope,
 						Input:    desc() + " with the same slice mods (len " + fmt.Sprint(len(ms1)) + ", cap 16) passed as mods... to both builders",
 						Observed: d + "   result: " + rp.Describe(), Expected: want.Describe(),
-						Explain:  "defaults first, then the caller's modifiers - also when the caller's slice has spare capacity and is used for several calls"})
+						Explain: "defaults first, then the caller's modifiers - also when the caller's slice has spare capacity and is used for several calls"})
 					return
 				}
 			}
 		}
 	})
 	c.Nontrivial(n.load())
-	c.Scope("d:histories", "pairs_of_inputs", len(jobs), "modifier_lists", "empty and every single modifier, for A and for B", "cases", n.load(),
+	c.Scope("d:histories", "pairs_of_inputs", len(jobs), "modifier_lists", "empty and every single modifier (the 13 of scope c + a second requested-options list + a second option-82 value), for A and for B", "cases", n.load(),
 		"d1", "A built, snapshot; B built; A unchanged (fields and encoding) and B equals its own reference fold",
-		"d3", "A built and overwritten in place (every option value), then B built: B equals its own reference fold",
 		"d2", "the caller's modifier slice (spare capacity) passed to two builders in a row: both results equal their reference folds, the slice still holds the caller's functions")
 	return int64(len(jobs)) * lists * lists
 }
